@@ -160,6 +160,22 @@ theorem C15_refines_unsupported_entry (es : List Entry) (hu : untar es = none) :
   rw [hst'] at hu
   cases hu
 
+/-! ## the "relative target" clause of `WellFormedArchive` is what `Unpack` itself demands -/
+
+/-- **C15_refines_links_relative_noabs.** `WellFormedArchive.links_good` asks for relative link
+targets.  Without an allow-list this is no restriction of the archives `Unpack` unpacks: whenever
+`Unpack` returns success — any filesystem, destination, privilege level, reader fault — every named
+symlink entry has a relative target (an absolute one is refused, also when it points into `dst`). -/
+theorem C15_refines_links_relative_noabs (cwd : Str) (priv : Bool) (dst : Str) (fault : Fault)
+    (fs : FS) (es : List Entry) (hok : (unpack cwd [] priv dst fault fs es).2 = .ok) :
+    ∀ e ∈ es, e.isSymlink = true → e.name ≠ [] → isAbs e.link = false := by
+  have h' : unpack cwd [] priv dst fault fs es = ((unpack cwd [] priv dst fault fs es).1, .ok) := by
+    rw [← hok]
+  obtain ⟨st, hl, _⟩ := (unpack_ok_iff cwd [] priv dst fault fs _ es).1 h'
+  intro e he hs hn
+  obtain ⟨ln, _, hv⟩ := unpackLoop_none_links cwd [] priv dst fault 0 _ st es hl e he hn hs
+  exact unpackLinkOK_nil_rel hv
+
 /-! ## the depth limit is a property of the filesystem model -/
 
 /-- **C15_depth_limit.** In the filesystem model a directory whose path has at least `resolveFuel`
@@ -424,5 +440,10 @@ example : wfCheck [cexLink "l" "x", cexReg "l/b" "y" 0o644 1] = false := by deci
 example : wfCheck [cexLink "l" "x", cexLink "l" "x"] = false := by decide
 example : wfCheck [cexLink "l" "../x"] = false := by decide
 example : wfCheck [cexReg "a/../b" "y" 0o644 1] = false := by decide
+
+/-- an absolute target, also one inside the destination: not well-formed, and refused by `Unpack`
+(`C15_refines_links_relative_noabs` is not vacuous) -/
+example : wfCheck [cexLink "l" "/t/dst/a"] = false := by decide
+example : (unpack cexCwd [] false cexDst .none cexFs0 [cexLink "l" "/t/dst/a"]).2 = .illegal := by decide
 
 end Slug
